@@ -1,0 +1,35 @@
+//go:build verif
+
+package lastgersync
+
+import (
+	"context"
+	"database/sql"
+
+	"github.com/agglayer/aggkit/sync"
+)
+
+// NewVerifLastGERSync returns the real facade around a real processor, without driver.
+func NewVerifLastGERSync(dbPath string) (*LastGERSync, error) {
+	p, err := newProcessor(dbPath)
+	if err != nil {
+		return nil, err
+	}
+	return &LastGERSync{processor: p}, nil
+}
+
+// VerifStore exposes ProcessBlock / Reorg / GetLastProcessedBlock of the processor.
+func (s *LastGERSync) VerifStore() VerifStoreIface { return s.processor }
+
+// VerifDB exposes the database handle.
+func (s *LastGERSync) VerifDB() *sql.DB { return s.processor.database }
+
+// VerifEvent builds the event value the processor expects inside sync.Block.Events.
+func VerifEvent(e GEREvent) any { return &Event{GEREvent: &e} }
+
+// VerifStoreIface is the write side of the store as the EVM driver sees it.
+type VerifStoreIface interface {
+	GetLastProcessedBlock(ctx context.Context) (uint64, error)
+	ProcessBlock(ctx context.Context, block sync.Block) error
+	Reorg(ctx context.Context, firstReorgedBlock uint64) error
+}
